@@ -20,6 +20,7 @@ print("drive_nfs")
 PY
 )
 (cd /verif/harness && CGO_ENABLED=0 go build -tags verif -modfile=/verif/build/mut/go.mod -overlay /verif/build/mut/overlay.json -o /verif/build/mut/drv ./cmd/$DRV) || { git -C /repo worktree remove --force $W; exit 1; }
+(cd /verif/coq && make Corr/$P.vo 2>&1 | grep -i error)
 rm -rf /verif/build/mut/cases; /verif/build/mut/drv -prop $P -seed 7 -n $N -out /verif/build/mut/cases 2>/dev/null
 cd /verif/build/mut/cases && ls cases_*.v | xargs -P 14 -I{} sh -c 'coqc -R /verif/coq Verif {} > {}.out 2>&1'
 cat cases_*.v.out | tr -d '\n' | sed 's/  */ /g' | grep -o "([0-9]*, [0-9]*, [0-9]*)" | awk -F'[(, )]+' '{c[$4]++} END {for (k in c) printf "code %s: %d  ", k, c[k]; print ""}'
